@@ -705,7 +705,7 @@ def g_factory_from_callback(rng, racing=None):
     """C09: the factory is first called, with changed arguments, from a done-callback running in the manager thread of the
     instance in use (it cannot complete there), then from the main thread: the half-stopped previous instance must be
     completely shut down before the fresh one is handed out."""
-    kw = {"max_workers": rng.randint(1, 3), "timeout": rng.choice([10, 5])}
+    kw = {"max_workers": rng.randint(2, 3), "timeout": rng.choice([10, 5])}
     kw2 = dict(kw, timeout=kw["timeout"] + 7)
     kw3 = dict(kw, timeout=kw["timeout"] + 11, max_workers=rng.randint(1, 3))
     ops = [{"op": "get_reusable", "ex": "e", "kw": kw, "factory": True}, {"op": "submit", "ex": "e", "task": t_ok(rng)}, {"op": "wait", "futs": "all"}]
@@ -715,10 +715,11 @@ def g_factory_from_callback(rng, racing=None):
         ops.append({"op": "submit", "ex": "e", "task": t_sleep(rng, 0.4, 0.6), "factory_cb": kw2})
         ops.append({"op": "sleep", "d": 0.1})
     else:
-        for _ in range(rng.randint(0, 2)):
-            ops.append({"op": "submit", "ex": "e", "task": t_sleep(rng, 0.1, 0.3)})
+        # a long job keeps the instance busy: after the callback's failed attempt the instance is half-stopped (shutdown requested,
+        # work in flight); the main thread's call must wait for it to drain and for its workers to be joined
+        ops.append({"op": "submit", "ex": "e", "task": {"k": "sleep", "d": round(rng.uniform(1.5, 2.5), 2)}})
         ops.append({"op": "submit", "ex": "e", "task": t_sleep(rng, 0.05, 0.1), "factory_cb": kw2})
-        ops += [{"op": "wait", "futs": "all"}, {"op": "sleep", "d": 0.4}]
+        ops += [{"op": "sleep", "d": 0.7}]
     ops += [{"op": "get_reusable", "ex": "e", "kw": kw3, "factory": True},
             {"op": "submit", "ex": "e", "task": {"k": "probe", "what": ["init", "env", "pid"]}}, {"op": "wait", "futs": "all"}]
     return {"threads": [ops], "end": "return"}, {"gen": "g_factory_from_callback", "threads": 1, "racing": racing}
